@@ -36,7 +36,7 @@ META = dict(
 
 
 def cases(tier, seed):
-    n, T = (4, 2) if tier == "quick" else (5, 3)
+    n, T = (6, 2) if tier == "quick" else (7, 3)  # n >= T + 4: the whole mirrored half of the straddling detector box lies outside the far wall's light cone
     out = []
     for ax in range(3):
         for tb in (("periodic", "pmc") if tier != "quick" else (("periodic", "pmc", "periodic")[ax],)):
@@ -70,7 +70,10 @@ def run_case(c, case):
     sh = list(shape)
     for a in axes:
         lo[a], sh[a] = n - 2, 4
-    det = lambda: [box_detector(fdtdx.FieldDetector, "det", tuple(lo), tuple(sh), dtype=jnp.float64, exact_interpolation=True)]
+    # second detector: a component subset listed in NON-canonical order (records are stored in canonical order whatever the
+    # listing; the unfold must sign each stored channel by what it is -- seeded change C33b)
+    det = lambda: [box_detector(fdtdx.FieldDetector, "det", tuple(lo), tuple(sh), dtype=jnp.float64, exact_interpolation=True),
+                   box_detector(fdtdx.FieldDetector, "det2", tuple(lo), tuple(sh), dtype=jnp.float64, exact_interpolation=True, components=("Ey", "Ez", "Ex", "Hz"))]
     SF = build_scene(shape, faces, steps=T, thickness=1, extra_objects=det())
     SR = build_scene(shape, faces, steps=T, thickness=1, extra_objects=det(), symmetry=sym)
     c.functions.update(META["functions"])
@@ -102,7 +105,7 @@ def run_case(c, case):
                 Hr[tuple(idx)] = 0
     c.symvars += int(sum(sc.is_symbolic_scalar(v) for v in list(Er.reshape(-1)) + list(Hr.reshape(-1))))
 
-    def mk(S, ie):
+    def mk(S, ie, unfold_det=False):
         arr, oc, cfg, key = S["arrays"], S["objects"], S["config"], S["key"]
         a0 = arr.aset("inv_permittivities", jnp.asarray(ie))
 
@@ -110,10 +113,14 @@ def run_case(c, case):
             st = (jnp.asarray(0, dtype=jnp.int32), a0.aset("fields->E", E).aset("fields->H", H))
             for _ in range(T):
                 st = forward(st, cfg, oc, key, True, False, True)
-            return st[1].fields.E, st[1].fields.H, st[1].detector_states["det"]["fields"]
+            if unfold_det:
+                from fdtdx.fdtd.symmetry import unfold_detector_states
+                ds = unfold_detector_states(st[1], oc, cfg).detector_states
+                return st[1].fields.E, st[1].fields.H, st[1].detector_states["det"]["fields"], ds["det"]["fields"], ds["det2"]["fields"]
+            return st[1].fields.E, st[1].fields.H, st[1].detector_states["det"]["fields"], st[1].detector_states["det"]["fields"], st[1].detector_states["det2"]["fields"]
         return run
 
-    rr, rf = mk(SR, ie_red), mk(SF, ie_full)
+    rr, rf = mk(SR, ie_red, True), mk(SF, ie_full)
     unf = lambda E, H: (unfold_fields(E, sym, "E"), unfold_fields(H, sym, "H"))
 
     def full_from_reduced(E, H):
@@ -121,13 +128,13 @@ def run_case(c, case):
         return rf(Ef, Hf)
 
     def red_unfolded(E, H):
-        e, h, d = rr(E, H)
+        e, h, d, du, du2 = rr(E, H)
         ue, uh = unf(e, h)
-        return ue, uh, d
+        return ue, uh, d, du, du2
 
     t0 = time.time()
-    (Ef, Hf, Df), trf = jx.call(full_from_reduced, Er, Hr)
-    (Eu, Hu, Dr), tru = jx.call(red_unfolded, Er, Hr)
+    (Ef, Hf, Df, _Df1, Df2), trf = jx.call(full_from_reduced, Er, Hr)
+    (Eu, Hu, Dr, Du, Du2), tru = jx.call(red_unfolded, Er, Hr)
     c.interp_s += time.time() - t0
     jf, ju = jax.jit(full_from_reduced), jax.jit(red_unfolded)
     maskE = np.array([[not sc.is_symbolic_scalar(v) for v in Er.reshape(-1)]]).reshape(rsh)
@@ -159,13 +166,29 @@ def run_case(c, case):
         w2 = float(np.max(np.abs((np.asarray(a[1]) - np.asarray(b[1]))[keep])))
         w3 = float(np.max(np.abs(np.asarray(a[2])[half] - np.asarray(b[2]))))
         sc_ = 1.0 + float(np.max(np.abs(np.asarray(a[0])))) + float(np.max(np.abs(np.asarray(a[1]))))
-        worst = max(w1, w2, w3) / sc_
-        return worst > 1e-7, dict(worst_rel_diff=worst, E=w1, H=w2, detector=w3)
+        w4 = float(np.max(np.abs((np.asarray(a[3]) - np.asarray(b[3]))[dkeep])))
+        w5 = float(np.max(np.abs((np.asarray(a[4]) - np.asarray(b[4]))[dkeep])))
+        worst = max(w1, w2, w3, w4, w5) / sc_
+        return worst > 1e-7, dict(worst_rel_diff=worst, E=w1, H=w2, detector=w3, detector_unfolded=w4, detector2_unfolded=w5)
 
+    # unfolded records: the detector box spans cells n-2..n+1 of the full domain; within the light-cone bound (n >= T+2) all of
+    # its cells lie beyond cell T, so its cells beyond cell T must equal the full-domain record
+    dkeep = [slice(None)] * dfull.ndim
+    for a in axes:
+        # record index i is full-domain cell n-2+i.  Fields of cells 0..T may differ (far wall), the co-location stencil reaches
+        # one cell back: co-located cells 0..T+1 may differ.  Along x and y the co-located samples sit ON an electric plane
+        # (E_z node, integer position): the outermost sample of the 4-cell box has its mirror partner outside the reduced
+        # detector and is documented as a fill value (mirror_extend_low_side), it is not compared.
+        dkeep[a + 2] = slice(max(1 if a in (0, 1) else 0, T + 4 - n), None)
+    dkeep = tuple(dkeep)
+    if jx.lift(Du).shape != dfull.shape or jx.lift(Du2).shape != jx.lift(Df2).shape:
+        raise Inconclusive(f"unfolded detector record has shape {jx.lift(Du).shape}, full-domain record {dfull.shape}")
     kk = "axes" + "".join(map(str, axes))
     c.prove_eq("unfold(reduced E) == full E (away from the far boundary)", jx.lift(Eu)[keep], jx.lift(Ef)[keep], [], replay, key=f"symmetry-reduction:{kk}:E", roundoff=1e-9)
     c.prove_eq("unfold(reduced H) == full H (away from the far boundary)", jx.lift(Hu)[keep], jx.lift(Hf)[keep], [], replay, key=f"symmetry-reduction:{kk}:H", roundoff=1e-9)
     c.prove_eq("co-located detector record: reduced == kept half of full", dred, dfull[half], [], replay, key=f"symmetry-reduction:{kk}:detector", roundoff=1e-9)
+    c.prove_eq("unfold_detector_states(reduced record) == full-domain record", jx.lift(Du)[dkeep], dfull[dkeep], [], replay, key=f"symmetry-reduction:{kk}:detector-unfolded", roundoff=1e-9)
+    c.prove_eq("unfold_detector_states(reduced record, non-canonical component order) == full-domain record", jx.lift(Du2)[dkeep], jx.lift(Df2)[dkeep], [], replay, key=f"symmetry-reduction:{kk}:detector-unfolded-order", roundoff=1e-9)
     e = [(x, y) for x, y in zip(jx.lift(Ef)[keep].reshape(-1), [0] * 10**6) if sc.is_symbolic_scalar(x)]
     if not e:
         raise Inconclusive("full run does not depend on the symbolic input")
